@@ -132,7 +132,7 @@ func GoBatch(progs []GoProg) ([]GoResult, error) {
 	go func() { done <- cmd.Wait() }()
 	select {
 	case <-done:
-	case <-time.After(60 * time.Second):
+	case <-time.After(180 * time.Second):
 		cmd.Process.Kill()
 		<-done
 	}
